@@ -796,7 +796,13 @@ def install(lib):
   # ------------------------------------------------------------------------------ numpy: reductions
   def reduction(name):
     def h(cx, a, axis=None, keepdims=None, **kw):
-      if isinstance(a, VList):
+      if isinstance(a, (VList, VTuple)) and a.items and all(isinstance(x, (VInt, VReal)) for x in a.items) and name in ('max', 'amax', 'min', 'sum'):
+        ts = [x.t for x in a.items]
+        acc = ts[0]
+        for t in ts[1:]:
+          acc = acc + t if name == 'sum' else z3.If(t > acc, t, acc) if name in ('max', 'amax') else z3.If(t < acc, t, acc)
+        return cx.ex.wrapnum(acc)
+      if isinstance(a, (VList, VTuple)):
         return VOpaque('np.%s(list)' % name)
       st = cx.st(a)
       ax = axis.conc() if isinstance(axis, VInt) else None
@@ -818,7 +824,7 @@ def install(lib):
           return VInt(t)
         if name in ('max', 'min', 'amax'):
           cx.may_raise('ValueError', st.shape.size() == 0, 'zero-size array to reduction')
-        f = {'sum': TH.vsum, 'mean': TH.vmean}.get(name) if r == 1 else None
+        f = {'sum': TH.vsum, 'mean': TH.vmean, 'max': TH.vmax, 'amax': TH.vmax}.get(name) if r == 1 else None
         t = f(st.term) if (f is not None and st.term is not None) else None
         if kind in ('i', 'b'):
           return VInt(z3.ToInt(t) if t is not None else fresh(name, z3.IntSort()))
